@@ -352,6 +352,11 @@ func (r *Run) Finish(rule string, assumptions []string, floors map[string]int64)
 	}
 	b, _ := json.MarshalIndent(ev, "", " ")
 	p := filepath.Join(VerifDir(), "evidence", r.ID+".json")
+	if RepoDir() != "/repo" {
+		// a run against a scratch tree (seeded change, reverted fix): its evidence must not replace
+		// the evidence of /repo itself
+		p = filepath.Join(VerifDir(), ".scratch", "evidence", r.ID+".json")
+	}
 	os.MkdirAll(filepath.Dir(p), 0o755)
 	if err := os.WriteFile(p, b, 0o644); err != nil {
 		fmt.Fprintln(os.Stderr, "cannot write evidence:", err)
